@@ -47,7 +47,17 @@ def _deg_join(a, b):
     return a
 
 
+def _weighs_all(x, what):
+    """multiplicity rule: a statistic of the sample must see every observation with its multiplicity -- an array that went
+    through np.unique / drop_duplicates has lost the ties"""
+    if isinstance(x, TV) and x.dedup:
+        raise BadType(f"{what} is computed from de-duplicated values (np.unique / drop_duplicates upstream): tied observations count once, "
+                      "so the estimate of a sample with repeated values is not the estimator's formula on that sample")
+
+
 class TV:
+    dedup = False                    # the array's values were de-duplicated (multiplicities lost)
+
     def __init__(self, trans="INV", deg=0, arr=False, kind="num", note="", nonneg=False, pct=None):
         self.trans, self.deg, self.arr, self.kind, self.note = trans, deg, arr, kind, note
         self.nonneg = nonneg or kind in ("idx", "bool")      # sign domain: provably >= 0 (else unknown)
@@ -84,6 +94,12 @@ class TV:
 
     # ---- interpreter hooks
     def abs_binop(self, op, other, reflected):
+        r = self._binop(op, other, reflected)
+        if isinstance(r, TV) and r.arr and (self.dedup or getattr(other, "dedup", False)):
+            r.dedup = True
+        return r
+
+    def _binop(self, op, other, reflected):
         o = TV.of(other)
         a, b = (o, self) if reflected else (self, o)
         arr = a.arr or b.arr
@@ -157,9 +173,13 @@ class TV:
 
     def abs_getitem(self, it, k):
         if isinstance(k, TV):
-            return TV(self.trans, self.deg, k.arr, self.kind, nonneg=self.nonneg)
+            r = TV(self.trans, self.deg, k.arr, self.kind, nonneg=self.nonneg)
+            r.dedup = self.dedup and k.arr
+            return r
         if isinstance(k, slice):
-            return TV(self.trans, self.deg, True, self.kind, nonneg=self.nonneg)
+            r = TV(self.trans, self.deg, True, self.kind, nonneg=self.nonneg)
+            r.dedup = self.dedup
+            return r
         if isinstance(k, int):
             return self.el()
         raise Undecided(f"index {k!r} on a typed array")
@@ -177,10 +197,20 @@ class TV:
         return TV(self.trans, self.deg, False, self.kind, nonneg=self.nonneg)
 
     def mean(self, *a, **k):
+        _weighs_all(self, "a mean")
         return self._red()
 
     def median(self, *a, **k):
+        _weighs_all(self, "a median")
         return self._red()
+
+    def unique(self, *a, **k):
+        r = TV(self.trans, self.deg, True, self.kind, nonneg=self.nonneg)
+        r.dedup = True
+        r.is_sorted = True
+        return r
+
+    drop_duplicates = unique
 
     def max(self, *a, **k):
         return self._red()
@@ -189,6 +219,7 @@ class TV:
         return self._red()
 
     def sum(self, *a, **k):
+        _weighs_all(self, "a sum")
         if self.trans == "LOC":
             raise BadType("sum of location-type values (moves by n*c)")
         if self.kind == "bool":
@@ -228,9 +259,11 @@ class TV:
         return self
 
     def std(self, *a, **k):
+        _weighs_all(self, "a standard deviation")
         return TV("INV", self.deg, False, nonneg=True)
 
     def var(self, *a, **k):
+        _weighs_all(self, "a variance")
         return TV("INV", _mul_deg(self.deg, self.deg), False, nonneg=True)
 
 
@@ -248,6 +281,7 @@ def _neg_deg(a):
 
 class KDE:
     def __init__(self, data):
+        _weighs_all(data, "a kernel density estimate")
         self.data = data
 
     def evaluate(self, x):
@@ -266,8 +300,18 @@ def typing_model(role_of):
         x = TV.of(x)
         return TV(x.trans, x.deg, False, nonneg=x.nonneg)
 
+    def red_all(it, x, *a, **k):
+        _weighs_all(x, "a mean / median")
+        return red(it, x, *a, **k)
+
+    def np_unique(it, x, *a, **k):
+        if a or k:
+            raise Undecided("np.unique with options")
+        return TV.of(x).unique()
+
     def pct(it, x, q, *a, **k):
         ident = id(x)
+        _weighs_all(x, "a percentile")
         x = TV.of(x)
         return TV(x.trans, x.deg, False, nonneg=x.nonneg, pct=(ident, q) if isinstance(q, (int, float)) else None)
 
@@ -291,8 +335,12 @@ def typing_model(role_of):
                        "range": lambda *a: (range(*a) if all(isinstance(x, int) for x in a) else [TV("INV", 0, False, "idx")] * 2),
                        "enumerate": lambda x, start=0: [(TV("INV", 0, False, "idx"), e) for e in (x.abs_iter() if isinstance(x, TV) else x)],
                        "int": lambda x: x, "float": lambda x: x, "round": lambda x, *a: x, "sum": lambda xs: TV.of(list(xs)).sum()})
-    for f in ("np.median", "np.nanmedian", "np.mean", "np.nanmean", "np.max", "np.min", "np.amax", "np.amin"):
-        m.ext[f] = red
+    for f in ("np.max", "np.min", "np.amax", "np.amin"):
+        m.ext[f] = red                   # extremes do not depend on multiplicities
+    for f in ("np.median", "np.nanmedian", "np.mean", "np.nanmean"):
+        m.ext[f] = red_all
+    m.ext["np.unique"] = np_unique
+    m.ext["pd.unique"] = np_unique
     m.ext["np.percentile"] = pct
     m.ext["np.quantile"] = pct
     for f in ("np.asarray", "np.array", "np.asfarray", "np.copy", "np.ravel"):
@@ -311,6 +359,7 @@ def typing_model(role_of):
         x = TV.of(x)
         r = TV(x.trans, x.deg, True, x.kind, nonneg=x.nonneg)
         r.is_sorted = True
+        r.dedup = x.dedup
         return r
     m.ext["np.sort"] = np_sort
 
@@ -327,6 +376,7 @@ def typing_model(role_of):
     m.ext["math.sqrt"] = sqrt
 
     def average(it, x, axis=None, weights=None, **k):
+        _weighs_all(x, "an average")
         x = TV.of(x)
         if weights is not None:
             w = TV.of(weights)
@@ -349,6 +399,7 @@ def typing_model(role_of):
     # calls to other estimators: summarised by their role (each is typed itself)
     for name, role in role_of.items():
         def summary(it, a, *rest, _role=role, **k):
+            _weighs_all(a, "an estimate")
             a = TV.of(a)
             if _role == "location":
                 return TV(a.trans, a.deg, False, nonneg=a.nonneg)    # a location estimate has the type (and sign) of one element
@@ -630,6 +681,14 @@ def const_model():
     m.ext["np.asarray"] = lambda it, x, *a, **k: x if isinstance(x, Arr) else Arr(list(x))
     m.ext["np.array"] = m.ext["np.asarray"]
     m.ext["np.sort"] = lambda it, x, *a, **k: _sorted_arr(x)
+
+    def np_unique(it, x, *a, **k):
+        out = []
+        for e in _sorted_arr(x if isinstance(x, Arr) else Arr(x)).v:
+            if not out or not same(out[-1], e):
+                out.append(e)
+        return Arr(out)
+    m.ext["np.unique"] = np_unique
     m.ext["np.median"] = lambda it, x, *a, **k: _median(x if isinstance(x, Arr) else Arr(x))
     m.ext["np.mean"] = lambda it, x, *a, **k: x.mean()
     m.ext["np.percentile"] = lambda it, x, q, *a, **k: _percentile(x if isinstance(x, Arr) else Arr(x), q)
